@@ -263,6 +263,8 @@ pub struct Inner {
     pub final_stage: bool,
     /// the case injects a panic: callers may stay blocked forever on the panicked object and keep handles alive
     pub panic_case: bool,
+    /// the root has started to release its handles (until then, with root_holds, every object certainly has an owner)
+    pub root_released: bool,
 }
 
 pub struct World {
@@ -367,7 +369,7 @@ impl World {
         self.hist(|| format!("ret  #{}", op));
     }
 
-    fn wake_batons(&self) {
+    pub fn wake_batons(&self) {
         let waiters = self.with(|i| std::mem::take(&mut i.baton_waiters));
         for t in waiters {
             rt::unpark_nosched(t);
@@ -457,6 +459,9 @@ impl World {
             i.objs[obj].last_progress = c;
         });
         self.hist(|| format!("BEGIN #{} on task {}", op, task));
+        if self.with(|i| !i.baton_waiters.is_empty()) {
+            self.wake_batons();
+        }
         if let Some((p_, c, d)) = fail {
             let (obj, kind, occ_cancelled_futsync) = self.with(|i| {
                 let obj = i.ops[op].obj;
